@@ -14,6 +14,27 @@ CHECKS = {
    note="Trusts the f64 oracle, the boundary tolerance 1e-4*scale, proptest's generators and shrinking."),
 }
 
+
+CODEC_NOTE = "Trusts the independent wowm model (harness/model: parser, resolver, tape-driven encoder/decoder, validated by reproducing all 229 test-vector decodings of the corpus), proptest, the Debug-output parser, and for aborts the worker supervisor. Canonical domain per DESIGN.md 1.10. Known findings are excluded by construction and re-confirmed by probes."
+CHECKS.update({
+ "C01": dict(engine="codec_harness", category="exploration", design="DESIGN.md §2 C01",
+   technique="model-based PBT: directed enumeration of every decision site + proptest choice tapes through an independent wowm encoder; round-trip and decoded-value oracle; isolated workers",
+   text="For every (message, expansion | login version, direction) derived from the wowm sources, canonical encodings produced by an independent model are fed to the public opcode-enum readers; the oracle demands acceptance, exact consumption, byte-identical re-encoding (compressed: same members/payload and a fixed point) and equality of decoded field values with what the model wrote. Directed enumeration visits every alternative of every control decision the encodings reveal; proptest tapes cover combinations. Sampling over values and combinations, exhaustive over single-site alternatives.",
+   note=CODEC_NOTE),
+ "C02": dict(engine="codec_harness", category="exploration", design="DESIGN.md §2 C02",
+   technique="PBT over message values, body-length sweeps around header boundaries and proptest-generated message streams; header oracle from the protocol description; counting readers",
+   text="Checks the header every writer emits (opcode, size field, 2/3-byte form) for all encodings of the directed enumeration, sweeps body lengths around 0x7FFF / 0xFFFF / 0x7FFFFF through decode+write and direct writes, verifies reader position after Ok and after errors, and reads proptest-generated concatenations of written messages through the opcode-enum readers and the typed expect_* helpers (sync, tokio, async-std).",
+   note=CODEC_NOTE + " Typed helpers are exercised for a fixed representative set of 29 message types per expansion."),
+ "C03": dict(engine="codec_harness", category="fault_enumeration", design="DESIGN.md §2 C03",
+   technique="structured fault injection from the model's trace + random frames (proptest), each case in an isolated worker process under RLIMIT_AS and a watchdog",
+   text="Every message's valid encodings are corrupted field by field (truncations, count/length/size extremes, out-of-range enum/bool/flag/mask/date patterns, string damage, inconsistent headers, zlib damage and bombs) and fed, with random bodies and raw byte strings, to the public readers inside worker processes limited to 1 GiB beyond their idle footprint; any panic, abort, allocation failure or stack overflow is a violation, a watchdog hit is inconclusive.",
+   note=CODEC_NOTE + " Overflow checks are on in the harness build. Hangs shorter than the watchdog and memory growth below the budget are not detected."),
+ "C04": dict(engine="codec_harness", category="fault_enumeration", design="DESIGN.md §2 C04",
+   technique="enumeration of fault sites from the wowm model (every enum leaf x undeclared values incl. width aliases; every constant-size message x every wrong length; exhaustive opcode space) with a metamorphic oracle",
+   text="Each enum-typed leaf of every message is given undeclared values at its full wire width (neighbours, extremes, gaps, aliases modulo 2^8/2^16/2^24) and the decoder must return the Enum error reporting exactly that number; every constant-sized message is given every other body length up to size+4 and must be rejected; all 2^16 (server, client) and sampled 32-bit (client) and all 256 (login) opcodes the model does not define must give the unknown-opcode error with that number, defined ones must not.",
+   note=CODEC_NOTE + " Enum leaves inside compressed regions are not mutated (counted in the evidence)."),
+})
+
 PENDING = {}
 
 def main():
@@ -42,7 +63,8 @@ def main():
         "hooks": hooks,
         "engines": [
             {"name": "base_harness", "path": "harness/base_harness", "serves_properties": ["C15", "C20"], "kind_free_text": "Rust binary linking /repo/wow_world_base; exhaustive sweep (C15) and proptest search (C20)"},
-            {"name": "wowm_model", "path": "harness/model", "serves_properties": [], "kind_free_text": "independent reading of the wowm language: parser, resolver, tape-driven encoder with trace, size analysis"},
+            {"name": "wowm_model", "path": "harness/model", "serves_properties": ["C01", "C02", "C03", "C04", "C05", "C06", "C14"], "kind_free_text": "independent reading of the wowm language: parser, resolver, tape-driven encoder/decoder with trace, exact size analysis"},
+            {"name": "codec_harness", "path": "harness/codec_harness", "serves_properties": ["C01", "C02", "C03", "C04", "C05", "C06", "C14"], "kind_free_text": "Rust binary linking /repo's three libraries with all features; generic endpoints over the public opcode enums, typed expect_* helpers, scripted async transport, isolated worker processes"},
         ],
         "checks": checks,
         "notes": "All checks: property-based testing / fuzzing (generated-input search against an explicit oracle). ./check <ID> <tier> rebuilds the harness from /repo's working tree with cargo (offline) and runs it; VERIF_SEED selects the proptest seed. Exit 2 = infrastructure problem or inconclusive, never a violation. known_findings.txt lists recorded findings and repaired defects.",
